@@ -453,7 +453,9 @@ class Tensor(object):
                 other = Tensor(
                     [
                         torch.ones(
-                            [self.shape[0], 1, self.shape[n + 1], 1], device=device
+                            [self.shape[0], 1, self.shape[n + 1], 1],
+                            device=device,
+                            dtype=self.cores[0].dtype,
                         )
                         for n in range(self.dim())
                     ],
@@ -462,7 +464,11 @@ class Tensor(object):
             else:
                 other = Tensor(
                     [
-                        torch.ones([1, self.shape[n], 1], device=device)
+                        torch.ones(
+                            [1, self.shape[n], 1],
+                            device=device,
+                            dtype=self.cores[0].dtype,
+                        )
                         for n in range(self.dim())
                     ]
                 )
@@ -1760,7 +1766,7 @@ class Tensor(object):
             shape2 = (factor.shape[1] + 1, factor.shape[1], factor.shape[0])
             order = (0, 2, 1)
 
-        core = torch.zeros(shape1)
+        core = torch.zeros(shape1, dtype=factor.dtype, device=factor.device)
         core[..., 0, :] = factor.transpose(-1, -2)
         return core.reshape(shape2).permute(order)[..., :-1, :, :]
 
